@@ -17,7 +17,11 @@ CHECKS = {
                      "of spec/InkOutput.tla afterwards). Programs are generated as abstract syntax trees and rendered to Ink "
                      "source; compiler + runtime play every choice path to a depth; TLC (InkSemTrace) steps the semantics over "
                      "the same paths, one state per statement, and compares per turn lines + tags, choices (text, tags, order) "
-                     "and end status, and at the end of the path the globals and knot visit counts.",
+                     "and end status, and at the end of the path the globals and knot visit counts. spec/InkLook.tla models the engine's "
+                     "look-ahead loop (snapshot at a newline, rewind / keep); TLC checks every recorded cont against it (text, tags, "
+                     "can-continue, choices, globals visible between lines, the structure of the save document) and, without running "
+                     "code, that it delivers what InkSem prescribes. Random host histories (cont, choose, set_variable, path jumps) are "
+                     "checked against the executable host model spec/InkHost.tla.",
                 note="bounded by the generated programs and path depth; the fragment is the one InkSem gives a meaning to "
                      "(lists, floats, externals, random sequences are decided by C03/C07/C12)",
                 technique="TLC evaluation of the TLA+ source semantics InkSem over generated ASTs, compared with recorded plays of compiler + runtime"),
@@ -25,17 +29,17 @@ CHECKS = {
                 text="TLC validates every recorded host call of probed runs against the abstract protocol "
                      "specification InkHostAbs (rule Rejected: error result, no callbacks, observation including the "
                      "save document unchanged, all later operations as in the base run). "
-                     "Bounded by the generated programs and histories.",
+                     "Bounded by the generated programs and histories. Additionally random histories with mostly invalid arguments are checked against the executable model spec/InkHost.tla: a refused call must return err and leave text, choices, globals, flows and the save document as the model has them.",
                 note="base runs of the same build define the reference system; observation projection of the harness "
                      "(text, tags, choices, errors, warnings, path, globals, visit counts, key-sorted save document)",
-                technique="TLA+ trace validation (InkHostTrace/InkHostAbs) of invalid-call injection"),
+                technique="TLA+ trace validation (InkHostTrace/InkHostAbs) of invalid-call injection + TLA+ executable host model (InkHost/InkHostOps) as absolute oracle"),
     "C02": dict(level=MC, ref="5/C02",
                 text="TLC validates recorded runs against InkHostAbs rules SaveA/LoadA: a load into a freshly constructed "
                      "twin jumps to the saved position of the reference system built from base runs; every explored "
                      "continuation is then compared observation by observation, and the save document written after the "
-                     "load must equal the loaded one. Bounded by generated and corpus programs, save points, continuations.",
+                     "load must equal the loaded one. Bounded by generated and corpus programs, save points, continuations. Additionally the executable model spec/InkHost.tla (save = copy of the model state into a slot, load = putting it back) answers random host histories with saves and loads mid-turn from the syntax tree alone; TLC (InkHostOps) compares every call of the real engine with it, including the structure of the save document.",
                 note="base runs of the same build; observation projection of the harness; twin built from the same document",
-                technique="TLA+ trace validation (InkHostTrace/InkHostAbs) of save/load histories"),
+                technique="TLA+ trace validation (InkHostTrace/InkHostAbs) of save/load histories + TLA+ executable host model (InkHost/InkHostOps) as absolute oracle"),
     "C16": dict(level=MC, ref="5/C16",
                 text="TLC validates recorded runs against InkHostAbs rule EvalA: a host evaluation of a pure function does "
                      "not move the abstract position; the observation (function's own visit/turn entries masked) is "
@@ -46,9 +50,9 @@ CHECKS = {
                 text="TLC validates recorded runs against InkHostAbs rule ResetA: after any explored history (cut mid-line, "
                      "unfinished async slice, flows, jumps, loads, host assignments, errors) reset_state returns to the home "
                      "position of the reference system; registrations stay, so callbacks after the reset equal the base "
-                     "run's. Rule JumpReset: a path jump with call-stack reset keeps globals and counts and leaves one frame.",
+                     "run's. Rule JumpReset: a path jump with call-stack reset keeps globals and counts and leaves one frame. Additionally random histories with reset_state and path jumps with call-stack reset are checked call by call against the executable model spec/InkHost.tla (reset = initial model state).",
                 note="the harness re-applies the seed after reset (hook); base runs of the same build",
-                technique="TLA+ trace validation (InkHostTrace/InkHostAbs) of history+reset+replay"),
+                technique="TLA+ trace validation (InkHostTrace/InkHostAbs) of history+reset+replay + TLA+ executable host model (InkHost/InkHostOps) as absolute oracle"),
     "C08": dict(level=MC, ref="5/C08",
                 text="TLC validates recorded runs against InkHostAbs rules SliceF/FinishF: every cont of explored base "
                      "paths is replaced by time-limited continues under a virtual clock (pause after every step, random "
@@ -69,9 +73,9 @@ CHECKS = {
                 text="TLC enumerates every interleaving of the flows' host operations (spec FlowSched); each schedule is "
                      "replayed on the real runtime (plain, with save + load into a fresh twin, with remove_flow) and "
                      "validated against InkHostAbs with one abstract position per flow: what the current flow shows equals "
-                     "its solo base run, every flow's own globals and counts equal that flow's solo run.",
+                     "its solo base run, every flow's own globals and counts equal that flow's solo run. Additionally random histories with switch_flow / switch_to_default / remove_flow are checked call by call against the executable model spec/InkHost.tla (flows own call stack, output and choices; variables, counts and the turn index are shared).",
                 note="flows generated disjoint (own knot, own variable), no turn-index reads; base runs of the same build",
-                technique="TLC schedule enumeration (FlowSched) + TLA+ trace validation (InkHostTrace/InkHostAbs, per-flow positions)"),
+                technique="TLC schedule enumeration (FlowSched) + TLA+ trace validation (InkHostTrace/InkHostAbs, per-flow positions) + TLA+ executable host model (InkHost/InkHostOps) as absolute oracle"),
     "C12": dict(level=MC, ref="5/C12",
                 text="TLC validates bound runs against the fallback run of the same program (transcript equality checks argument "
                      "values, order and use of the result) and the rule ExtCountRule (InkHostRules): cumulative host calls of "
